@@ -2,13 +2,18 @@
    connection and records every completion result line ("<tag> OK|NO|BAD ...") until the server closes.  The ServeLoop
    model predicts the same list from the same bytes; `mismatches` lists the ids where they differ. *)
 From Coq Require Import List NArith Bool String.
-From Gluon Require Export Base.ImapHex Gen.FactsTokens Model.ImapTokens Model.ImapGrammar Model.ServeLoop.
+From Gluon Require Export Base.ImapHex Gen.FactsTokens Model.ImapTokens Model.ImapGrammar Model.ServeLoop Model.ImapCollector.
 Import ListNotations.
 Open Scope N_scope.
 
 (* observed status: 0 = BAD, 1 = NO, 2 = OK *)
-(* c_tls: the server of this case had a TLS configuration (STARTTLS accepted) *)
-Record case := mkCase { c_id : N; c_tls : bool; c_in : bytes; c_obs : list (bytes * N) }.
+(* a session case (c_tls: the server had a TLS configuration) or a drive of the real InputCollector: the operations as the
+   collector saw them and what Bytes() returned afterwards *)
+Inductive case :=
+| mkCase (c_id : N) (c_tls : bool) (c_in : bytes) (c_obs : list (bytes * N))
+| mkColl (c_id : N) (ops : list cop) (observed : bytes).
+
+Definition c_id (c : case) : N := match c with mkCase i _ _ _ => i | mkColl i _ _ => i end.
 
 (* the harness' server has one user: user / pass *)
 Definition login_ok (u p : bytes) : bool := bytes_eqb u (s2b "user"%string) && bytes_eqb p (s2b "pass"%string).
@@ -24,9 +29,13 @@ Fixpoint events_ok (evs : list event) (obs : list (bytes * N)) : bool :=
   end.
 
 Definition case_ok (c : case) : bool :=
-  match serve_stream login_ok (c_tls c) (c_in c) with
-  | (evs, EndClosed) => events_ok (completions evs) (c_obs c)
-  | _ => false
+  match c with
+  | mkCase _ tls inp obs =>
+      match serve_stream login_ok tls inp with
+      | (evs, EndClosed) => events_ok (completions evs) obs
+      | _ => false
+      end
+  | mkColl _ ops observed => bytes_eqb (collected ops) observed
   end.
 
 Definition mismatches (cs : list case) : list nat :=
